@@ -6,7 +6,7 @@
     journal of the real engine; its proof over an engine LTS is not part of this
     file (see DESIGN.md, partial). *)
 From Coq Require Import List ZArith Bool Arith.
-From FF Require Import Sx TaskTree TaskTreeFacts EngineCore EngineCoreFacts.
+From FF Require Import Sx TaskTree TaskTreeFacts Engine EngineFacts.
 Import ListNotations.
 
 Theorem C01_executable_ids_parents_done : forall t l v p,
@@ -30,36 +30,39 @@ Theorem C01_unfinished_enables_nothing : forall t g s t' ids,
 Proof. exact next_ids_unfinished_none. Qed.
 Print Assumptions C01_unfinished_enables_nothing.
 
-(** --- engine level (EngineCore: parser knowledge, executor runs and persisted statuses of one instance as a
-    transition system; scope: failures, retry command, crash/restart, watchdog failing a dead run).  The
-    statements hold for every history in which no delivery is accepted with a stale snapshot
-    ([validate = true]); the code as it is admits such a delivery after a retry command re-initialised the
-    instance, and then every one of them fails ([..._unvalidated_refuted]; known finding F-dup-push,
-    reproduced on the real code).  Journals of the real engine in this scope are checked to be histories of
-    EngineCore ([EngineCoreCheck.check_core]) and the hypothesis is monitored on them. --- *)
+(** --- engine level (Engine: persisted task and instance statuses, the parser's tree and event queue, the
+    executor's registered runs and the deliveries under way, the retry command in its phases, crash and
+    restart, the watchdog - one instance as a transition system at the granularity of single store writes
+    and goroutine hand-overs; scope: tasks without pre-checks, failures in every phase, retry commands
+    also while the instance is busy, no-op commands).  The statements hold for every history in which no
+    delivery is accepted with a stale snapshot ([validate = true], the other switches arbitrary); the code
+    as it is admits such a delivery after a retry command re-initialised a busy instance, and then every
+    one of them fails ([..._unvalidated_refuted]; known finding F-dup-push, reproduced on the real code).
+    Journals of the real engine in this scope are checked to be histories of Engine
+    ([EngineCheck.check_core]) and the hypothesis is monitored on them. --- *)
 
-Theorem C01_engine_dependency_order : forall tasks deps ls s t s',
-  run tasks deps true boot ls = Some s -> step tasks deps true s (MainStart t) = Some s' ->
+Theorem C01_engine_dependency_order : forall tasks deps cq nn ls s t s',
+  run tasks deps true cq nn boot ls = Some s -> step tasks deps true cq nn s (MainStart t) = Some s' ->
   parents_done deps (store s) t = true.
 Proof.
-  intros tasks deps ls s t s' Hr Hs.
-  exact (main_start_parents_done tasks deps s t s' (inv_reach tasks deps ls boot s (inv_boot deps) Hr) Hs).
+  intros tasks deps cq nn ls s t s' Hr Hs.
+  exact (main_start_parents_done tasks deps cq nn s t s' (inv_reach tasks deps cq nn ls boot s (inv_boot deps) Hr) Hs).
 Qed.
 Print Assumptions C01_engine_dependency_order.
 
 (** and a dependency that is recorded success stays so *)
-Theorem C01_engine_dependency_stays_done : forall tasks deps ls s l s' d,
-  run tasks deps true boot ls = Some s -> step tasks deps true s l = Some s' ->
+Theorem C01_engine_dependency_stays_done : forall tasks deps cq nn ls s l s' d,
+  run tasks deps true cq nn boot ls = Some s -> step tasks deps true cq nn s l = Some s' ->
   store s d = SSuccess -> store s' d = SSuccess.
 Proof.
-  intros tasks deps ls s l s' d Hr Hs.
-  exact (success_final tasks deps s l s' d (inv_reach tasks deps ls boot s (inv_boot deps) Hr) Hs).
+  intros tasks deps cq nn ls s l s' d Hr Hs.
+  exact (success_final tasks deps cq nn s l s' d (inv_reach tasks deps cq nn ls boot s (inv_boot deps) Hr) Hs).
 Qed.
 Print Assumptions C01_engine_dependency_stays_done.
 
 Theorem C01_engine_unvalidated_refuted :
-  exists s, run [1; 2; 3]%Z deps3 false boot witness_dup = Some s /\
-            (exists s', step [1; 2; 3]%Z deps3 false s (MainStart 3) = Some s') /\ parents_done deps3 (store s) 3 = false.
+  exists s, run [1; 2; 3]%Z deps3 false false true boot witness_dup = Some s /\
+            (exists s', step [1; 2; 3]%Z deps3 false false true s (MainStart 3) = Some s') /\ parents_done deps3 (store s) 3 = false.
 Proof.
   destruct unvalidated_refuted as (s & Hr & _ & _ & _ & H3 & Hp). exists s. repeat split; assumption.
 Qed.
